@@ -3,6 +3,7 @@ package main
 import (
 	"fmt"
 	"go/token"
+	"go/types"
 	"sort"
 	"strings"
 
@@ -406,5 +407,130 @@ func c09SANTags(c *Ctx) {
 			}
 			c.Check(fmt.Sprint(got) == fmt.Sprint(want), rule, fname(pr), "parseSANExtension's results go to (DNSNames, EmailAddresses, IPAddresses)", "", fmt.Sprintf("the results are assigned to %v", got), call.Pos())
 		}
+	}
+}
+
+// c09SignedBytes: the to-be-signed structure that is marshalled for the signer is byte-for-byte what ends up inside
+// the emitted object: either its Raw field is set to the signed bytes (encoding/asn1 then emits them verbatim), or
+// nothing is stored into the structure between the marshal that feeds the signer and the final marshal.
+func c09SignedBytes(c *Ctx) {
+	rule := "G-C09-signedbytes"
+	n := 0
+	for _, e := range []struct{ pkg, fn string }{{"x509", "CreateCertificate"}, {"x509", "CreateCertificateRequest"}, {"x509", "(*Certificate).CreateCRL"}, {"x509", "CreateRevocationList"}} {
+		f := c.Fn(e.pkg, e.fn)
+		if f == nil {
+			c.Missing(rule, e.pkg+"."+e.fn, "function", "not found")
+			continue
+		}
+		allocOfArg := func(call *ssa.Call) *ssa.Alloc {
+			if len(call.Call.Args) == 0 {
+				return nil
+			}
+			mi, ok := call.Call.Args[0].(*ssa.MakeInterface)
+			if !ok {
+				return nil
+			}
+			ld, ok := mi.X.(*ssa.UnOp)
+			if !ok || ld.Op != token.MUL {
+				return nil
+			}
+			al, _ := ld.X.(*ssa.Alloc)
+			return al
+		}
+		var marshals []*ssa.Call
+		for _, ci := range allCalls(f) {
+			if call, ok := ci.(*ssa.Call); ok {
+				if sc := call.Call.StaticCallee(); sc != nil && sc.String() == "encoding/asn1.Marshal" && allocOfArg(call) != nil {
+					marshals = append(marshals, call)
+				}
+			}
+		}
+		// rootAlloc: the local a field address is rooted at
+		rootAlloc := func(v ssa.Value) *ssa.Alloc {
+			for {
+				switch x := v.(type) {
+				case *ssa.FieldAddr:
+					v = x.X
+					continue
+				case *ssa.IndexAddr:
+					v = x.X
+					continue
+				case *ssa.Alloc:
+					return x
+				}
+				return nil
+			}
+		}
+		found := false
+		for _, m2 := range marshals {
+			outer := allocOfArg(m2)
+			// the inner structure embedded in outer: a store into a field of outer whose value is a load of another local
+			var inner *ssa.Alloc
+			instrsOf(f, func(_ *ssa.BasicBlock, in ssa.Instruction) {
+				st, ok := in.(*ssa.Store)
+				if !ok || rootAlloc(st.Addr) != outer {
+					return
+				}
+				if ld, ok := st.Val.(*ssa.UnOp); ok && ld.Op == token.MUL {
+					if al, ok := ld.X.(*ssa.Alloc); ok && al != outer {
+						if _, isStruct := al.Type().Underlying().(*types.Pointer).Elem().Underlying().(*types.Struct); isStruct {
+							inner = al
+						}
+					}
+				}
+			})
+			if inner == nil {
+				continue
+			}
+			var m1 *ssa.Call
+			for _, m := range marshals {
+				if allocOfArg(m) == inner && instrReaches(m, m2, nil) && m != m2 {
+					m1 = m
+				}
+			}
+			if m1 == nil {
+				continue
+			}
+			found = true
+			n++
+			c.Evals++
+			// (a) Raw = signed bytes
+			rawSet := false
+			var late ssa.Instruction
+			instrsOf(f, func(_ *ssa.BasicBlock, in ssa.Instruction) {
+				st, ok := in.(*ssa.Store)
+				if !ok || rootAlloc(st.Addr) != inner {
+					return
+				}
+				if fa, ok := st.Addr.(*ssa.FieldAddr); ok && fa.X == ssa.Value(inner) && fieldName(fa.X.Type(), fa.Field) == "Raw" {
+					val := st.Val
+					if ct, ok := val.(*ssa.ChangeType); ok {
+						val = ct.X
+					}
+					if ex, ok := val.(*ssa.Extract); ok && ex.Tuple == ssa.Value(m1) && instrDominates(st, m2) {
+						rawSet = true
+					}
+					return
+				}
+				if instrReaches(m1, st, nil) && instrReaches(st, m2, nil) {
+					late = st
+				}
+			})
+			if rawSet {
+				c.Holds(rule, fname(f), "the signed bytes are the bytes emitted", "the structure's Raw field is set to the signed encoding", m1.Pos())
+			} else {
+				why := ""
+				if late != nil {
+					why = "the to-be-signed structure is modified at " + c.P.pos(late.Pos()) + " after it was marshalled for the signer and before it is marshalled into the result: the signature does not cover what is emitted, so the object fails its own verification"
+				}
+				c.Check(late == nil, rule, fname(f), "the signed bytes are the bytes emitted", "nothing is stored into the structure between the two marshals", why, m1.Pos())
+			}
+		}
+		if !found {
+			c.Undecided(rule, fname(f), "the marshal for the signer and the final marshal", "not identified", f.Pos())
+		}
+	}
+	if n < 4 {
+		c.Undecided(rule, "x509", "creators", fmt.Sprintf("only %d of 4 creators analysed", n), token.NoPos)
 	}
 }
